@@ -9,6 +9,7 @@ import (
 	"fmt"
 	"io"
 	"log"
+	"math"
 	"os"
 	"path/filepath"
 	"regexp"
@@ -117,8 +118,14 @@ func (s *JSONDB) newWriter(dagFile string, t time.Time, requestID string) (*writ
 
 func (s *JSONDB) ReadStatusRecent(dagFile string, n int) []*model.StatusFile {
 	var ret []*model.StatusFile
-	files := s.latest(s.globPattern(dagFile), n)
+	// Look at every file, newest first: a file that holds no complete status
+	// yet (a run that was just opened, or whose writer was killed) must not
+	// use up a slot of the n most recent runs.
+	files := s.latest(s.globPattern(dagFile), math.MaxInt)
 	for _, file := range files {
+		if len(ret) >= n {
+			break
+		}
 		status, err := s.cache.LoadLatest(file, func() (*model.Status, error) {
 			return ParseFile(file)
 		})
@@ -134,13 +141,23 @@ func (s *JSONDB) ReadStatusRecent(dagFile string, n int) []*model.StatusFile {
 }
 
 func (s *JSONDB) ReadStatusToday(dagFile string) (*model.Status, error) {
-	file, err := s.latestToday(dagFile, time.Now(), s.latestStatusToday)
+	files, err := s.latestTodayFiles(dagFile, time.Now(), s.latestStatusToday)
 	if err != nil {
 		return nil, err
 	}
-	return s.cache.LoadLatest(file, func() (*model.Status, error) {
-		return ParseFile(file)
-	})
+	// Fall back to the next newest file when the newest one holds no complete
+	// status yet, instead of failing the whole query.
+	var lastErr error
+	for _, file := range files {
+		status, err := s.cache.LoadLatest(file, func() (*model.Status, error) {
+			return ParseFile(file)
+		})
+		if err == nil {
+			return status, nil
+		}
+		lastErr = err
+	}
+	return nil, lastErr
 }
 
 func (s *JSONDB) FindByRequestID(dagFile string, requestID string) (*model.StatusFile, error) {
@@ -280,7 +297,8 @@ func (s *JSONDB) newFile(dagFile string, t time.Time, requestID string) (string,
 	), nil
 }
 
-func (s *JSONDB) latestToday(dagFile string, day time.Time, latestStatusToday bool) (string, error) {
+// latestTodayFiles returns the candidate files for the latest status, newest first.
+func (s *JSONDB) latestTodayFiles(dagFile string, day time.Time, latestStatusToday bool) ([]string, error) {
 	var pattern string
 	if latestStatusToday {
 		pattern = fmt.Sprintf("%s.%s*.*.dat", globEscape(s.prefixWithDirectory(dagFile)), day.Format(dateFormat))
@@ -289,13 +307,13 @@ func (s *JSONDB) latestToday(dagFile string, day time.Time, latestStatusToday bo
 	}
 	matches, err := filepath.Glob(pattern)
 	if err != nil || len(matches) == 0 {
-		return "", persistence.ErrNoStatusDataToday
+		return nil, persistence.ErrNoStatusDataToday
 	}
-	ret := filterLatest(matches, 1)
+	ret := filterLatest(matches, len(matches))
 	if len(ret) == 0 {
-		return "", persistence.ErrNoStatusData
+		return nil, persistence.ErrNoStatusData
 	}
-	return ret[0], nil
+	return ret, nil
 }
 
 func (s *JSONDB) latest(pattern string, n int) []string {
